@@ -71,6 +71,22 @@ func doPack(src string, o packOpts) packObs {
 	return obs
 }
 
+// doPackWith packs src with an existing Packer value.
+func doPackWith(p *slug.Packer, src string) packObs {
+	var obs packObs
+	var buf bytes.Buffer
+	panicked, pv := fw.Try(func() { obs.Meta, obs.Err = p.Pack(src, &buf) })
+	if panicked {
+		obs.Panic = pv
+		return obs
+	}
+	obs.Data = buf.Bytes()
+	if obs.Err == nil {
+		obs.Entries, obs.DecErr = mon.DecodeSlug(obs.Data)
+	}
+	return obs
+}
+
 // freshDir removes and recreates a directory.
 func freshDir(p string) error {
 	fixTreePerms(p)
